@@ -161,6 +161,9 @@ Proof.
   - split; [reflexivity|assumption].
 Qed.
 
+Section WithGlobals.
+Variable G : pm_env.      (* the global constants - arbitrary *)
+
 (* ================================================================ HasPermission *)
 Definition pm_matches (req : pm_str) (e : pm_entry) : bool := pm_match (pm_lower (pe_perm e)) req.
 
@@ -176,9 +179,9 @@ Qed.
 
 (* the combined filter is true (in namespace ns) only if the initial one is, or the filter of a matching entry is *)
 Lemma pm_hp_loop_filter_true u req ns : forall found pf g,
-  snd (pm_hp_loop u req found pf) = Some g -> pm_eval [] ns g = PmT ->
-  (exists g0, pf = Some g0 /\ pm_eval [] ns g0 = PmT)
-  \/ (exists e f, In e u /\ pm_matches req e = true /\ pe_filter e = Some f /\ pm_eval [] ns f = PmT).
+  snd (pm_hp_loop u req found pf) = Some g -> pm_eval G ns g = PmT ->
+  (exists g0, pf = Some g0 /\ pm_eval G ns g0 = PmT)
+  \/ (exists e f, In e u /\ pm_matches req e = true /\ pe_filter e = Some f /\ pm_eval G ns f = PmT).
 Proof.
   induction u as [|e r IH]; intros found pf g Hs Hev; cbn [pm_hp_loop] in Hs.
   - cbn in Hs. left. exists g. auto.
@@ -187,7 +190,7 @@ Proof.
       * destruct pf as [g0|].
         -- destruct (IH _ _ _ Hs Hev) as [(g1 & Hg1 & Hev1)|(e' & f' & Hin & Hm' & Hf' & Hev')].
            ++ inversion Hg1; subst. cbn [pm_eval] in Hev1.
-              destruct (pm_eval [] ns g0) eqn:E0; try discriminate.
+              destruct (pm_eval G ns g0) eqn:E0; try discriminate.
               ** left. exists g0. auto.
               ** right. exists e, f. cbn. auto.
            ++ right. exists e', f'. cbn. auto.
@@ -235,8 +238,8 @@ Qed.
 
 (* granted + combined filter true of o (evaluated on o alone)  ==>  some matching entry whose filter, if any, is true of o *)
 Lemma pm_granted_allow u perm pf o :
-  perm <> [] -> pm_check_permission u perm = Some pf -> pm_eval_opt pf o = PmT ->
-  pm_spec_allow u perm o = true.
+  perm <> [] -> pm_check_permission u perm = Some pf -> pm_eval_opt G pf o = PmT ->
+  pm_spec_allow G u perm o = true.
 Proof.
   intros Hne Hc Hev. apply pm_check_some in Hc.
   destruct perm as [|c p]; [congruence|]. unfold pm_has_permission in Hc.
@@ -258,14 +261,14 @@ Qed.
 (* ================================================================ GetFilterTargets: what every returned object satisfies *)
 (* o is an inventory object for which the combined permission filter, evaluated on o alone, is true *)
 Definition pm_ret_clean (pf : option pm_filter) (inv : list pm_obj) (o : pm_obj) : Prop :=
-  In o inv /\ pm_eval_opt pf o = PmT.
+  In o inv /\ pm_eval_opt G pf o = PmT.
 
 (* one EvaluateFilter call of the permission filter in a namespace that only saw targets of o's type *)
 Lemma pm_evalf_perm pf ns o ns' r :
-  pm_ns_typed (po_type o) ns -> pm_evalf [] pf ns o = (ns', r) ->
-  r = pm_eval_opt pf o /\ pm_ns_typed (po_type o) ns'.
+  pm_ns_typed (po_type o) ns -> pm_evalf G pf ns o = (ns', r) ->
+  r = pm_eval_opt G pf o /\ pm_ns_typed (po_type o) ns'.
 Proof.
-  intros Hns E. destruct (pm_evalf_clean [] pf ns o Hns) as [A B]. rewrite E in A, B. cbn [fst snd] in A, B.
+  intros Hns E. destruct (pm_evalf_clean G pf ns o Hns) as [A B]. rewrite E in A, B. cbn [fst snd] in A, B.
   split; [exact A|exact B].
 Qed.
 
@@ -274,23 +277,23 @@ Section Names.
 
   Lemma pm_name_one_ok t n ns o ns' :
     pm_ns_typed t ns ->
-    pm_name_one pf inv t n ns = inr (o, ns') ->
+    pm_name_one G pf inv t n ns = inr (o, ns') ->
     pm_ret_clean pf inv o /\ po_type o = t /\ po_name o = n /\ pm_lookup inv t n = Some o /\ pm_ns_typed t ns'.
   Proof.
     intros Hns. unfold pm_name_one. destruct (pm_lookup inv t n) as [o'|] eqn:L; [|discriminate].
     destruct (pm_lookup_some _ _ _ _ L) as (A & B & C).
-    destruct (pm_evalf [] pf ns o') as [ns1 r] eqn:E.
+    destruct (pm_evalf G pf ns o') as [ns1 r] eqn:E.
     rewrite <- B in Hns. destruct (pm_evalf_perm pf ns o' ns1 r Hns E) as [Hr Ht]. rewrite B in Ht.
     destruct r; try discriminate. intros H. inversion H; subst. repeat split; auto.
   Qed.
 
   Lemma pm_name_list_ok t ns : forall acc fr res,
     pm_ns_typed t fr -> (forall x, In x acc -> pm_ret_clean pf inv x) ->
-    pm_name_list pf inv t ns acc fr = inr res -> forall x, In x res -> pm_ret_clean pf inv x.
+    pm_name_list G pf inv t ns acc fr = inr res -> forall x, In x res -> pm_ret_clean pf inv x.
   Proof.
     induction ns as [|n r IH]; intros acc fr res Hfr Hacc H; cbn in H.
     - inversion H; subst. assumption.
-    - destruct (pm_name_one pf inv t n fr) as [e|[o fr']] eqn:E; [discriminate|].
+    - destruct (pm_name_one G pf inv t n fr) as [e|[o fr']] eqn:E; [discriminate|].
       destruct (pm_name_one_ok t n fr o fr' Hfr E) as (A & _ & _ & _ & F).
       eapply IH; [exact F| |exact H].
       intros x Hx. apply in_app_or in Hx. destruct Hx as [Hx|[<-|[]]]; auto.
@@ -298,11 +301,11 @@ Section Names.
 
   Lemma pm_names_type_ok q t acc res :
     (forall x, In x acc -> pm_ret_clean pf inv x) ->
-    pm_names_type pf inv q t acc = inr res -> forall x, In x res -> pm_ret_clean pf inv x.
+    pm_names_type G pf inv q t acc = inr res -> forall x, In x res -> pm_ret_clean pf inv x.
   Proof.
     intros Hacc H. unfold pm_names_type in H.
     destruct (pm_q_single q t) as [n|].
-    - destruct (pm_name_one pf inv t n []) as [e|[o fr]] eqn:E; [discriminate|].
+    - destruct (pm_name_one G pf inv t n []) as [e|[o fr]] eqn:E; [discriminate|].
       destruct (pm_name_one_ok t n [] o fr (pm_ns_typed_nil t) E) as (A & _ & _ & _ & F).
       assert (forall x, In x (acc ++ [o]) -> pm_ret_clean pf inv x) as Hacc'.
       { intros x Hx. apply in_app_or in Hx. destruct Hx as [Hx|[<-|[]]]; auto. }
@@ -316,48 +319,48 @@ Section Names.
 
   Lemma pm_by_names_ok q tys : forall acc res,
     (forall x, In x acc -> pm_ret_clean pf inv x) ->
-    pm_by_names pf inv q tys acc = inr res -> forall x, In x res -> pm_ret_clean pf inv x.
+    pm_by_names G pf inv q tys acc = inr res -> forall x, In x res -> pm_ret_clean pf inv x.
   Proof.
     induction tys as [|t r IH]; intros acc res Hacc H; cbn in H.
     - inversion H; subst. assumption.
-    - destruct (pm_names_type pf inv q t acc) as [e|acc'] eqn:E; [discriminate|].
+    - destruct (pm_names_type G pf inv q t acc) as [e|acc'] eqn:E; [discriminate|].
       eapply IH; [|exact H]. eapply pm_names_type_ok; eassumption.
   Qed.
 End Names.
 
 Lemma pm_fast_collect_ret pf inv t : forall names ns l,
   pm_ns_typed t ns ->
-  pm_fast_collect pf ns inv t names = inr l -> forall x, In x l -> In x inv /\ po_type x = t /\ pm_eval_opt pf x = PmT.
+  pm_fast_collect G pf ns inv t names = inr l -> forall x, In x l -> In x inv /\ po_type x = t /\ pm_eval_opt G pf x = PmT.
 Proof.
   induction names as [|n r IH]; intros ns l Hns H; cbn in H.
   - inversion H; subst. intros x [].
   - destruct (pm_lookup inv t n) as [o|] eqn:L; [|eapply IH; eassumption].
     destruct (pm_lookup_some _ _ _ _ L) as (A & B & C).
-    destruct (pm_evalf [] pf ns o) as [ns1 r0] eqn:E.
+    destruct (pm_evalf G pf ns o) as [ns1 r0] eqn:E.
     rewrite <- B in Hns. destruct (pm_evalf_perm pf ns o ns1 r0 Hns E) as [Hr Ht]. rewrite B in Ht.
     destruct r0; try discriminate.
-    + destruct (pm_fast_collect pf ns1 inv t r) as [e|l'] eqn:R; [discriminate|].
+    + destruct (pm_fast_collect G pf ns1 inv t r) as [e|l'] eqn:R; [discriminate|].
       inversion H; subst. intros x [<-|Hx]; [auto|eapply IH; eassumption].
     + eapply IH; eassumption.
 Qed.
 
 Lemma pm_scan_ret pf uf fv t : forall inv pns uns l,
   pm_ns_typed t pns -> pm_ns_typed t uns ->
-  pm_scan pf pns uf fv uns t inv = inr l ->
-  forall x, In x l -> In x inv /\ po_type x = t /\ pm_eval_opt pf x = PmT /\ snd (pm_evalf fv uf [] x) = PmT.
+  pm_scan G pf pns uf fv uns t inv = inr l ->
+  forall x, In x l -> In x inv /\ po_type x = t /\ pm_eval_opt G pf x = PmT /\ snd (pm_evalf (fv ++ G) uf [] x) = PmT.
 Proof.
   induction inv as [|o r IH]; intros pns uns l Hp Hu H; cbn in H.
   - inversion H; subst. intros x [].
   - destruct (pm_type_eqb (po_type o) t) eqn:T.
     + apply pm_type_eqb_eq in T.
-      destruct (pm_evalf [] pf pns o) as [pns1 r1] eqn:E1.
+      destruct (pm_evalf G pf pns o) as [pns1 r1] eqn:E1.
       rewrite <- T in Hp. destruct (pm_evalf_perm pf pns o pns1 r1 Hp E1) as [Hr1 Hp1]. rewrite T in Hp1.
       destruct r1; try discriminate.
-      * destruct (pm_evalf fv uf uns o) as [uns1 r2] eqn:E2.
-        rewrite <- T in Hu. destruct (pm_evalf_clean fv uf uns o Hu) as [Hr2 Hu1]. rewrite E2 in Hr2, Hu1. cbn [fst snd] in Hr2, Hu1.
+      * destruct (pm_evalf (fv ++ G) uf uns o) as [uns1 r2] eqn:E2.
+        rewrite <- T in Hu. destruct (pm_evalf_clean (fv ++ G) uf uns o Hu) as [Hr2 Hu1]. rewrite E2 in Hr2, Hu1. cbn [fst snd] in Hr2, Hu1.
         rewrite T in Hu1.
         destruct r2; try discriminate.
-        -- destruct (pm_scan pf pns1 uf fv uns1 t r) as [e|l'] eqn:R; [discriminate|].
+        -- destruct (pm_scan G pf pns1 uf fv uns1 t r) as [e|l'] eqn:R; [discriminate|].
            inversion H; subst. intros x [<-|Hx].
            ++ repeat split; auto. left; reflexivity.
            ++ destruct (IH _ _ _ Hp1 Hu1 R x Hx) as (A & B). split; [right; assumption|assumption].
@@ -367,11 +370,11 @@ Proof.
 Qed.
 
 Lemma pm_by_filter_ret fast pf inv t uf fv l :
-  pm_by_filter fast pf inv t uf fv = inr l ->
-  forall x, In x l -> In x inv /\ po_type x = t /\ pm_eval_opt pf x = PmT.
+  pm_by_filter G fast pf inv t uf fv = inr l ->
+  forall x, In x l -> In x inv /\ po_type x = t /\ pm_eval_opt G pf x = PmT.
 Proof.
   unfold pm_by_filter. intros H x Hx. destruct uf as [f|].
-  - destruct (if fast && negb (pm_shadowed fv) then pm_targets t f fv else None) as [ns|].
+  - destruct (if fast && negb (pm_shadowed t fv) then pm_targets t f fv else None) as [ns|].
     + eapply pm_fast_collect_ret; [apply pm_ns_typed_nil|eassumption|assumption].
     + destruct (pm_scan_ret _ _ _ _ _ _ _ _ (pm_ns_typed_nil t) (pm_ns_typed_nil t) H x Hx) as (A & B & C & _). auto.
   - destruct (pm_scan_ret _ _ _ _ _ _ _ _ (pm_ns_typed_nil t) (pm_ns_typed_nil t) H x Hx) as (A & B & C & _). auto.
@@ -379,23 +382,23 @@ Qed.
 
 (* decomposition of a successful call *)
 Lemma pm_filter_targets_ok fast u perm tys q inv objs c :
-  pm_filter_targets fast u perm tys q inv = (c, PmOk objs) ->
-  exists pf res, pm_check_permission u perm = Some pf /\ pm_by_names pf inv q tys [] = inr res /\
-    (objs = res \/ exists t l, pm_by_filter fast pf inv t (pq_filter q) (pq_fvars q) = inr l
+  pm_filter_targets G fast u perm tys q inv = (c, PmOk objs) ->
+  exists pf res, pm_check_permission u perm = Some pf /\ pm_by_names G pf inv q tys [] = inr res /\
+    (objs = res \/ exists t l, pm_by_filter G fast pf inv t (pq_filter q) (pq_fvars q) = inr l
                                /\ In t tys /\ objs = res ++ l).
 Proof.
   unfold pm_filter_targets. destruct (pm_check_permission u perm) as [pf|]; [|discriminate].
-  destruct (pm_by_names pf inv q tys []) as [e|res] eqn:N; [discriminate|].
+  destruct (pm_by_names G pf inv q tys []) as [e|res] eqn:N; [discriminate|].
   destruct (pm_is_some (pq_filter q) || pm_is_nil res).
   - destruct (pq_type q) as [qt|]; [|discriminate].
     destruct qt; try discriminate; cbn [pm_qtype_in].
     + destruct (existsb (pm_type_eqb PmHost) tys) eqn:E; [|discriminate].
-      destruct (pm_by_filter fast pf inv PmHost (pq_filter q) (pq_fvars q)) as [e|l] eqn:BF; [discriminate|].
+      destruct (pm_by_filter G fast pf inv PmHost (pq_filter q) (pq_fvars q)) as [e|l] eqn:BF; [discriminate|].
       intros H. inversion H; subst. exists pf, res. split; [reflexivity|]. split; [exact N|]. right.
       exists PmHost, l. split; [assumption|]. split; [|reflexivity].
       apply existsb_exists in E. destruct E as (x & Hx & Hex). apply pm_type_eqb_eq in Hex. subst. assumption.
     + destruct (existsb (pm_type_eqb PmService) tys) eqn:E; [|discriminate].
-      destruct (pm_by_filter fast pf inv PmService (pq_filter q) (pq_fvars q)) as [e|l] eqn:BF; [discriminate|].
+      destruct (pm_by_filter G fast pf inv PmService (pq_filter q) (pq_fvars q)) as [e|l] eqn:BF; [discriminate|].
       intros H. inversion H; subst. exists pf, res. split; [reflexivity|]. split; [exact N|]. right.
       exists PmService, l. split; [assumption|]. split; [|reflexivity].
       apply existsb_exists in E. destruct E as (x & Hx & Hex). apply pm_type_eqb_eq in Hex. subst. assumption.
@@ -405,7 +408,7 @@ Qed.
 (* C18_only_permitted, in terms of the combined filter: every returned object is an inventory object for which
    the combined permission filter - evaluated on that object alone - is true *)
 Theorem pm_only_permitted_clean fast u perm tys q inv objs c :
-  pm_filter_targets fast u perm tys q inv = (c, PmOk objs) ->
+  pm_filter_targets G fast u perm tys q inv = (c, PmOk objs) ->
   exists pf, pm_check_permission u perm = Some pf /\ forall o, In o objs -> pm_ret_clean pf inv o.
 Proof.
   intros H. destruct (pm_filter_targets_ok _ _ _ _ _ _ _ _ H) as (pf & res & Hc & Hn & Hobjs).
@@ -419,7 +422,7 @@ Qed.
 (* ================================================================ reject first *)
 Theorem pm_reject_first fast u perm tys q inv :
   perm <> [] -> (forall e, In e u -> pm_match (pm_lower (pe_perm e)) (pm_lower perm) = false) ->
-  pm_filter_targets fast u perm tys q inv = (false, PmErr PmErrPerm).
+  pm_filter_targets G fast u perm tys q inv = (false, PmErr PmErrPerm).
 Proof.
   intros Hne Hno. unfold pm_filter_targets.
   assert (pm_check_permission u perm = None) as ->; [|reflexivity].
@@ -437,47 +440,47 @@ Definition pm_names (q : pm_query) (t : pm_type) (n : pm_str) : Prop :=
   pm_q_single q t = Some n \/ exists ns, pm_q_plural q t = Some ns /\ In n ns.
 
 Lemma pm_name_one_denied pf inv t n o ns :
-  pm_ns_typed t ns -> pm_lookup inv t n = Some o -> pm_eval_opt pf o <> PmT ->
-  exists e, pm_name_one pf inv t n ns = inl e.
+  pm_ns_typed t ns -> pm_lookup inv t n = Some o -> pm_eval_opt G pf o <> PmT ->
+  exists e, pm_name_one G pf inv t n ns = inl e.
 Proof.
   intros Hns L Hno. unfold pm_name_one. rewrite L.
   destruct (pm_lookup_some _ _ _ _ L) as (_ & B & _).
-  destruct (pm_evalf [] pf ns o) as [ns1 r] eqn:E. rewrite <- B in Hns.
+  destruct (pm_evalf G pf ns o) as [ns1 r] eqn:E. rewrite <- B in Hns.
   destruct (pm_evalf_perm pf ns o ns1 r Hns E) as [Hr _]. destruct r; eauto. congruence.
 Qed.
 
 Lemma pm_name_list_denied pf inv t n o : forall ns acc fr,
   pm_ns_typed t fr ->
-  In n ns -> pm_lookup inv t n = Some o -> pm_eval_opt pf o <> PmT ->
-  exists e, pm_name_list pf inv t ns acc fr = inl e.
+  In n ns -> pm_lookup inv t n = Some o -> pm_eval_opt G pf o <> PmT ->
+  exists e, pm_name_list G pf inv t ns acc fr = inl e.
 Proof.
   induction ns as [|m r IH]; intros acc fr Hfr Hin L Hno; [destruct Hin|]. cbn.
-  destruct (pm_name_one pf inv t m fr) as [e|[o' fr']] eqn:E; [eauto|].
+  destruct (pm_name_one G pf inv t m fr) as [e|[o' fr']] eqn:E; [eauto|].
   destruct Hin as [->|Hin].
   - destruct (pm_name_one_denied pf inv t n o fr Hfr L Hno) as (e & He). congruence.
   - destruct (pm_name_one_ok pf inv t m fr o' fr' Hfr E) as (_ & _ & _ & _ & F). apply IH; auto.
 Qed.
 
 Lemma pm_names_type_denied pf inv q t n o acc :
-  pm_names q t n -> pm_lookup inv t n = Some o -> pm_eval_opt pf o <> PmT ->
-  exists e, pm_names_type pf inv q t acc = inl e.
+  pm_names q t n -> pm_lookup inv t n = Some o -> pm_eval_opt G pf o <> PmT ->
+  exists e, pm_names_type G pf inv q t acc = inl e.
 Proof.
   intros Hn L Hno. unfold pm_names_type.
   destruct Hn as [Hs|(ns & Hp & Hin)].
   - rewrite Hs. destruct (pm_name_one_denied pf inv t n o [] (pm_ns_typed_nil t) L Hno) as (e & ->). eauto.
   - rewrite Hp. destruct (pm_q_single q t) as [n0|].
-    + destruct (pm_name_one pf inv t n0 []) as [e|[o0 fr0]] eqn:E; [eauto|].
+    + destruct (pm_name_one G pf inv t n0 []) as [e|[o0 fr0]] eqn:E; [eauto|].
       destruct (pm_name_one_ok pf inv t n0 [] o0 fr0 (pm_ns_typed_nil t) E) as (_ & _ & _ & _ & F).
       eapply pm_name_list_denied; eassumption.
     + eapply pm_name_list_denied; try eassumption. apply pm_ns_typed_nil.
 Qed.
 
 Lemma pm_by_names_denied pf inv q t n o : forall tys acc,
-  In t tys -> pm_names q t n -> pm_lookup inv t n = Some o -> pm_eval_opt pf o <> PmT ->
-  exists e, pm_by_names pf inv q tys acc = inl e.
+  In t tys -> pm_names q t n -> pm_lookup inv t n = Some o -> pm_eval_opt G pf o <> PmT ->
+  exists e, pm_by_names G pf inv q tys acc = inl e.
 Proof.
   induction tys as [|t' r IH]; intros acc Hin Hn L Hno; [destruct Hin|]. cbn.
-  destruct (pm_names_type pf inv q t' acc) as [e|acc'] eqn:E; [eauto|].
+  destruct (pm_names_type G pf inv q t' acc) as [e|acc'] eqn:E; [eauto|].
   destruct Hin as [->|Hin]; [|eauto].
   destruct (pm_names_type_denied pf inv q t n o acc Hn L Hno) as (e & He). congruence.
 Qed.
@@ -485,8 +488,8 @@ Qed.
 (* an object addressed by name for which the combined filter (on the object alone) is not true: error *)
 Theorem pm_by_name_denied fast u perm tys q inv t n o pf :
   In t tys -> pm_names q t n -> pm_lookup inv t n = Some o ->
-  pm_check_permission u perm = Some pf -> pm_eval_opt pf o <> PmT ->
-  exists c e, pm_filter_targets fast u perm tys q inv = (c, PmErr e).
+  pm_check_permission u perm = Some pf -> pm_eval_opt G pf o <> PmT ->
+  exists c e, pm_filter_targets G fast u perm tys q inv = (c, PmErr e).
 Proof.
   intros Hin Hn L Hc Hno. unfold pm_filter_targets. rewrite Hc.
   destruct (pm_by_names_denied pf inv q t n o tys [] Hin Hn L Hno) as (e & ->). eauto.
@@ -506,11 +509,11 @@ Definition pm_q_by_list (t : pm_type) (n : pm_str) : pm_query :=
   | PmHost => {| pq_host := None; pq_service := None; pq_hosts := Some [n]; pq_services := None; pq_type := None; pq_filter := None; pq_fvars := [] |}
   | PmService => {| pq_host := None; pq_service := None; pq_hosts := None; pq_services := Some [n]; pq_type := None; pq_filter := None; pq_fvars := [] |}
   end.
-Definition pm_q_by_type (t : pm_type) (uf : option pm_filter) (fv : list (pm_str * pm_str)) : pm_query :=
+Definition pm_q_by_type (t : pm_type) (uf : option pm_filter) (fv : pm_env) : pm_query :=
   {| pq_host := None; pq_service := None; pq_hosts := None; pq_services := None; pq_type := Some (pm_qtype_of t); pq_filter := uf; pq_fvars := fv |}.
 
 (* the user's filter on the object alone *)
-Definition pm_ueval (fv : list (pm_str * pm_str)) (uf : option pm_filter) (o : pm_obj) : pm_tri := snd (pm_evalf fv uf [] o).
+Definition pm_ueval (fv : pm_env) (uf : option pm_filter) (o : pm_obj) : pm_tri := snd (pm_evalf (fv ++ G) uf [] o).
 
 Section Paths.
   Variables (u : list pm_entry) (perm : pm_str) (inv : list pm_obj) (o : pm_obj) (pf : option pm_filter).
@@ -518,44 +521,44 @@ Section Paths.
   Hypothesis Hlook : pm_lookup inv (po_type o) (po_name o) = Some o.   (* names are unique per type *)
 
   Lemma pm_path_by_name fast :
-    snd (pm_filter_targets fast u perm [po_type o] (pm_q_by_name (po_type o) (po_name o)) inv) = PmOk [o]
-    <-> pm_eval_opt pf o = PmT.
+    snd (pm_filter_targets G fast u perm [po_type o] (pm_q_by_name (po_type o) (po_name o)) inv) = PmOk [o]
+    <-> pm_eval_opt G pf o = PmT.
   Proof.
     unfold pm_filter_targets. rewrite Hperm. unfold pm_q_by_name, pm_eval_opt.
     destruct (po_type o) eqn:T; cbn [pm_by_names]; unfold pm_names_type, pm_name_one, pm_q_single, pm_q_plural;
       cbn [pq_host pq_service pq_hosts pq_services pm_name_list]; rewrite Hlook;
-      destruct (pm_evalf [] pf [] o) as [ns r]; destruct r; cbn; split; intros H; congruence.
+      destruct (pm_evalf G pf [] o) as [ns r]; destruct r; cbn; split; intros H; congruence.
   Qed.
 
   Lemma pm_path_by_list fast :
-    snd (pm_filter_targets fast u perm [po_type o] (pm_q_by_list (po_type o) (po_name o)) inv) = PmOk [o]
-    <-> pm_eval_opt pf o = PmT.
+    snd (pm_filter_targets G fast u perm [po_type o] (pm_q_by_list (po_type o) (po_name o)) inv) = PmOk [o]
+    <-> pm_eval_opt G pf o = PmT.
   Proof.
     unfold pm_filter_targets. rewrite Hperm. unfold pm_q_by_list, pm_eval_opt.
     destruct (po_type o) eqn:T; cbn [pm_by_names]; unfold pm_names_type, pm_q_single, pm_q_plural;
       cbn [pq_host pq_service pq_hosts pq_services pm_name_list]; unfold pm_name_one; rewrite Hlook;
-      destruct (pm_evalf [] pf [] o) as [ns r]; destruct r; cbn; split; intros H; congruence.
+      destruct (pm_evalf G pf [] o) as [ns r]; destruct r; cbn; split; intros H; congruence.
   Qed.
 
   Lemma pm_scan_complete uf fv : forall inv0 pns uns l,
     pm_ns_typed (po_type o) pns -> pm_ns_typed (po_type o) uns ->
-    pm_scan pf pns uf fv uns (po_type o) inv0 = inr l -> In o inv0 -> pm_eval_opt pf o = PmT ->
+    pm_scan G pf pns uf fv uns (po_type o) inv0 = inr l -> In o inv0 -> pm_eval_opt G pf o = PmT ->
     pm_ueval fv uf o = PmT -> In o l.
   Proof.
     induction inv0 as [|x r IH]; intros pns uns l Hp Hu H Hin Hev Huv; [destruct Hin|]. cbn in H.
     destruct (pm_type_eqb (po_type x) (po_type o)) eqn:T.
     - apply pm_type_eqb_eq in T.
-      destruct (pm_evalf [] pf pns x) as [pns1 r1] eqn:E1.
+      destruct (pm_evalf G pf pns x) as [pns1 r1] eqn:E1.
       rewrite <- T in Hp. destruct (pm_evalf_perm pf pns x pns1 r1 Hp E1) as [Hr1 Hp1]. rewrite T in Hp1.
-      destruct (pm_evalf fv uf uns x) as [uns1 r2] eqn:E2.
-      rewrite <- T in Hu. destruct (pm_evalf_clean fv uf uns x Hu) as [Hr2 Hu1]. rewrite E2 in Hr2, Hu1. cbn [fst snd] in Hr2, Hu1.
+      destruct (pm_evalf (fv ++ G) uf uns x) as [uns1 r2] eqn:E2.
+      rewrite <- T in Hu. destruct (pm_evalf_clean (fv ++ G) uf uns x Hu) as [Hr2 Hu1]. rewrite E2 in Hr2, Hu1. cbn [fst snd] in Hr2, Hu1.
       rewrite T in Hu1, Hu.
       destruct Hin as [->|Hin].
       + unfold pm_ueval in Huv. rewrite Hev in Hr1. rewrite Huv in Hr2. subst r1 r2.
-        destruct (pm_scan pf pns1 uf fv uns1 (po_type o) r); [discriminate|]. inversion H. left. reflexivity.
+        destruct (pm_scan G pf pns1 uf fv uns1 (po_type o) r); [discriminate|]. inversion H. left. reflexivity.
       + destruct r1; try discriminate.
         * destruct r2; try discriminate.
-          -- destruct (pm_scan pf pns1 uf fv uns1 (po_type o) r) as [e0|l0] eqn:R; [discriminate|]. inversion H; subst. right.
+          -- destruct (pm_scan G pf pns1 uf fv uns1 (po_type o) r) as [e0|l0] eqn:R; [discriminate|]. inversion H; subst. right.
              exact (IH pns1 uns1 l0 Hp1 Hu1 R Hin Hev Huv).
           -- exact (IH pns1 uns1 l Hp1 Hu1 H Hin Hev Huv).
         * exact (IH pns1 uns l Hp1 Hu H Hin Hev Huv).
@@ -564,8 +567,8 @@ Section Paths.
   Qed.
 
   Lemma pm_filter_targets_type_only fast uf fv :
-    snd (pm_filter_targets fast u perm [po_type o] (pm_q_by_type (po_type o) uf fv) inv) =
-    match pm_by_filter fast pf inv (po_type o) uf fv with inl e => PmErr e | inr l => PmOk l end.
+    snd (pm_filter_targets G fast u perm [po_type o] (pm_q_by_type (po_type o) uf fv) inv) =
+    match pm_by_filter G fast pf inv (po_type o) uf fv with inl e => PmErr e | inr l => PmOk l end.
   Proof.
     unfold pm_filter_targets. rewrite Hperm. unfold pm_q_by_type.
     cbn [pm_by_names]. unfold pm_names_type, pm_q_single, pm_q_plural.
@@ -575,46 +578,46 @@ Section Paths.
 
   (* by type (no user filter) and by type + user filter on the slow path *)
   Lemma pm_path_by_type uf fv objs :
-    snd (pm_filter_targets false u perm [po_type o] (pm_q_by_type (po_type o) uf fv) inv) = PmOk objs ->
-    (In o objs <-> pm_eval_opt pf o = PmT /\ pm_ueval fv uf o = PmT).
+    snd (pm_filter_targets G false u perm [po_type o] (pm_q_by_type (po_type o) uf fv) inv) = PmOk objs ->
+    (In o objs <-> pm_eval_opt G pf o = PmT /\ pm_ueval fv uf o = PmT).
   Proof.
     rewrite pm_filter_targets_type_only. unfold pm_by_filter.
     assert (In o inv) as Hin by (apply pm_lookup_some in Hlook; tauto).
-    assert (forall l, pm_scan pf [] uf fv [] (po_type o) inv = inr l ->
-              (In o l <-> pm_eval_opt pf o = PmT /\ pm_ueval fv uf o = PmT)) as G.
+    assert (forall l, pm_scan G pf [] uf fv [] (po_type o) inv = inr l ->
+              (In o l <-> pm_eval_opt G pf o = PmT /\ pm_ueval fv uf o = PmT)) as GG.
     { intros l S. split.
       - intros Ho. destruct (pm_scan_ret _ _ _ _ _ _ _ _ (pm_ns_typed_nil _) (pm_ns_typed_nil _) S o Ho) as (_ & _ & A & B). auto.
       - intros [A B]. eapply pm_scan_complete; eauto; apply pm_ns_typed_nil. }
-    destruct uf as [f|]; cbn [negb andb]; (destruct (pm_scan pf [] _ fv [] (po_type o) inv) as [e|l] eqn:S; [discriminate|]);
-      intros H; inversion H; subst; apply G; reflexivity.
+    destruct uf as [f|]; cbn [negb andb]; (destruct (pm_scan G pf [] _ fv [] (po_type o) inv) as [e|l] eqn:S; [discriminate|]);
+      intros H; inversion H; subst; apply GG; reflexivity.
   Qed.
 
   Lemma pm_fast_collect_complete : forall names ns l,
     pm_ns_typed (po_type o) ns ->
-    pm_fast_collect pf ns inv (po_type o) names = inr l -> In (po_name o) names -> pm_eval_opt pf o = PmT -> In o l.
+    pm_fast_collect G pf ns inv (po_type o) names = inr l -> In (po_name o) names -> pm_eval_opt G pf o = PmT -> In o l.
   Proof.
     induction names as [|n r IH]; intros ns l Hns H Hin Hev; [destruct Hin|]. cbn in H.
     destruct Hin as [->|Hin].
-    - rewrite Hlook in H. destruct (pm_evalf [] pf ns o) as [ns1 r1] eqn:E.
+    - rewrite Hlook in H. destruct (pm_evalf G pf ns o) as [ns1 r1] eqn:E.
       destruct (pm_evalf_perm pf ns o ns1 r1 Hns E) as [Hr _]. rewrite Hev in Hr. subst r1.
-      destruct (pm_fast_collect pf ns1 inv (po_type o) r); [discriminate|]. inversion H. left. reflexivity.
+      destruct (pm_fast_collect G pf ns1 inv (po_type o) r); [discriminate|]. inversion H. left. reflexivity.
     - destruct (pm_lookup inv (po_type o) n) as [x|] eqn:L; [|eauto].
       destruct (pm_lookup_some _ _ _ _ L) as (_ & B & _).
-      destruct (pm_evalf [] pf ns x) as [ns1 r1] eqn:E.
+      destruct (pm_evalf G pf ns x) as [ns1 r1] eqn:E.
       rewrite <- B in Hns. destruct (pm_evalf_perm pf ns x ns1 r1 Hns E) as [_ Ht]. rewrite B in Ht.
       destruct r1; try discriminate; [|eauto].
-      destruct (pm_fast_collect pf ns1 inv (po_type o) r) eqn:R; [discriminate|]. inversion H; subst. right. eauto.
+      destruct (pm_fast_collect G pf ns1 inv (po_type o) r) eqn:R; [discriminate|]. inversion H; subst. right. eauto.
   Qed.
 
   (* the fast path: host.name == "<name>" *)
   Lemma pm_path_fast_host objs :
     po_type o = PmHost ->
-    snd (pm_filter_targets true u perm [po_type o] (pm_q_by_type (po_type o) (Some (PmFName PmScHost (po_name o))) []) inv) = PmOk objs ->
-    (In o objs <-> pm_eval_opt pf o = PmT).
+    snd (pm_filter_targets G true u perm [po_type o] (pm_q_by_type (po_type o) (Some (PmFName PmScHost (po_name o))) []) inv) = PmOk objs ->
+    (In o objs <-> pm_eval_opt G pf o = PmT).
   Proof.
     intros Ht. rewrite pm_filter_targets_type_only. unfold pm_by_filter. cbn [andb negb pm_shadowed existsb].
     assert (pm_targets (po_type o) (PmFName PmScHost (po_name o)) [] = Some [po_name o]) as -> by (rewrite Ht; reflexivity).
-    destruct (pm_fast_collect pf [] inv (po_type o) [po_name o]) as [e|l] eqn:F; [discriminate|].
+    destruct (pm_fast_collect G pf [] inv (po_type o) [po_name o]) as [e|l] eqn:F; [discriminate|].
     intros H. inversion H; subst. split.
     - intros Ho. destruct (pm_fast_collect_ret _ _ _ _ _ _ (pm_ns_typed_nil _) F o Ho) as (_ & _ & A). assumption.
     - intros A. eapply pm_fast_collect_complete; [apply pm_ns_typed_nil|exact F|left; reflexivity|assumption].
@@ -626,36 +629,24 @@ Section Paths.
     po_type o = PmService -> po_name o = po_host o ++ [33] ++ po_short o ->
     let f := if swap then PmFAnd (PmFName PmScService (po_short o)) (PmFName PmScHost (po_host o))
              else PmFAnd (PmFName PmScHost (po_host o)) (PmFName PmScService (po_short o)) in
-    snd (pm_filter_targets true u perm [po_type o] (pm_q_by_type (po_type o) (Some f) []) inv) = PmOk objs ->
-    (In o objs <-> pm_eval_opt pf o = PmT).
+    snd (pm_filter_targets G true u perm [po_type o] (pm_q_by_type (po_type o) (Some f) []) inv) = PmOk objs ->
+    (In o objs <-> pm_eval_opt G pf o = PmT).
   Proof.
     intros Ht Hname f. rewrite pm_filter_targets_type_only. unfold pm_by_filter. cbn [andb negb pm_shadowed existsb].
     assert (pm_targets (po_type o) f [] = Some [po_name o]) as ->.
     { rewrite Ht, Hname. unfold f. destruct swap; reflexivity. }
-    destruct (pm_fast_collect pf [] inv (po_type o) [po_name o]) as [e|l] eqn:F; [discriminate|].
+    destruct (pm_fast_collect G pf [] inv (po_type o) [po_name o]) as [e|l] eqn:F; [discriminate|].
     intros H. inversion H; subst. split.
     - intros Ho. destruct (pm_fast_collect_ret _ _ _ _ _ _ (pm_ns_typed_nil _) F o Ho) as (_ & _ & A). assumption.
     - intros A. eapply pm_fast_collect_complete; [apply pm_ns_typed_nil|exact F|left; reflexivity|assumption].
   Qed.
 End Paths.
 
-(* ================================================================ joins *)
-Theorem pm_join_only_permitted u o :
-  pm_join_visible u o = true -> pm_spec_allow u (pm_query_perm (po_type o)) o = true.
-Proof.
-  unfold pm_join_visible. destruct (pm_has_permission u (pm_query_perm (po_type o))) as [granted pf] eqn:E.
-  intros H. apply andb_prop in H. destruct H as [-> Ht].
-  apply (pm_granted_allow u (pm_query_perm (po_type o)) pf o).
-  - destruct (po_type o); discriminate.
-  - unfold pm_check_permission. rewrite E. reflexivity.
-  - destruct (pm_eval_opt pf o); [reflexivity|discriminate|discriminate].
-Qed.
-
 (* ================================================================ packaged statements for Properties_C18.v *)
 Theorem pm_only_permitted fast u perm tys q inv objs c :
   perm <> [] ->
-  pm_filter_targets fast u perm tys q inv = (c, PmOk objs) ->
-  forall o, In o objs -> In o inv /\ pm_spec_allow u perm o = true.
+  pm_filter_targets G fast u perm tys q inv = (c, PmOk objs) ->
+  forall o, In o objs -> In o inv /\ pm_spec_allow G u perm o = true.
 Proof.
   intros Hne H o Ho.
   destruct (pm_only_permitted_clean _ _ _ _ _ _ _ _ H) as (pf & Hc & Hall).
@@ -665,21 +656,21 @@ Qed.
 
 Theorem pm_paths_agree u perm inv o pf :
   pm_check_permission u perm = Some pf -> pm_lookup inv (po_type o) (po_name o) = Some o ->
-  (forall fast, snd (pm_filter_targets fast u perm [po_type o] (pm_q_by_name (po_type o) (po_name o)) inv) = PmOk [o]
-                <-> pm_eval_opt pf o = PmT) /\
-  (forall fast, snd (pm_filter_targets fast u perm [po_type o] (pm_q_by_list (po_type o) (po_name o)) inv) = PmOk [o]
-                <-> pm_eval_opt pf o = PmT) /\
-  (forall uf fv objs, snd (pm_filter_targets false u perm [po_type o] (pm_q_by_type (po_type o) uf fv) inv) = PmOk objs ->
-                (In o objs <-> pm_eval_opt pf o = PmT /\ pm_ueval fv uf o = PmT)) /\
+  (forall fast, snd (pm_filter_targets G fast u perm [po_type o] (pm_q_by_name (po_type o) (po_name o)) inv) = PmOk [o]
+                <-> pm_eval_opt G pf o = PmT) /\
+  (forall fast, snd (pm_filter_targets G fast u perm [po_type o] (pm_q_by_list (po_type o) (po_name o)) inv) = PmOk [o]
+                <-> pm_eval_opt G pf o = PmT) /\
+  (forall uf fv objs, snd (pm_filter_targets G false u perm [po_type o] (pm_q_by_type (po_type o) uf fv) inv) = PmOk objs ->
+                (In o objs <-> pm_eval_opt G pf o = PmT /\ pm_ueval fv uf o = PmT)) /\
   (forall objs, po_type o = PmHost ->
-                snd (pm_filter_targets true u perm [po_type o] (pm_q_by_type (po_type o) (Some (PmFName PmScHost (po_name o))) []) inv) = PmOk objs ->
-                (In o objs <-> pm_eval_opt pf o = PmT)) /\
+                snd (pm_filter_targets G true u perm [po_type o] (pm_q_by_type (po_type o) (Some (PmFName PmScHost (po_name o))) []) inv) = PmOk objs ->
+                (In o objs <-> pm_eval_opt G pf o = PmT)) /\
   (forall objs (swap : bool), po_type o = PmService -> po_name o = po_host o ++ [33] ++ po_short o ->
-                snd (pm_filter_targets true u perm [po_type o]
+                snd (pm_filter_targets G true u perm [po_type o]
                        (pm_q_by_type (po_type o)
                           (Some (if swap then PmFAnd (PmFName PmScService (po_short o)) (PmFName PmScHost (po_host o))
                                  else PmFAnd (PmFName PmScHost (po_host o)) (PmFName PmScService (po_short o)))) []) inv) = PmOk objs ->
-                (In o objs <-> pm_eval_opt pf o = PmT)).
+                (In o objs <-> pm_eval_opt G pf o = PmT)).
 Proof.
   intros Hc Hl.
   split; [intros fast; apply pm_path_by_name; assumption|].
@@ -688,3 +679,4 @@ Proof.
   split; [intros objs Ht H; eapply pm_path_fast_host; eassumption|].
   intros objs swap Ht Hn H. eapply (pm_path_fast_service u perm inv o pf Hc Hl objs swap Ht Hn). exact H.
 Qed.
+End WithGlobals.
